@@ -4,3 +4,4 @@ pub mod yaml_scan;
 pub mod json_rec;
 pub mod jsonnum;
 pub mod utf8;
+pub mod dsv;
